@@ -535,7 +535,100 @@ private:"""),
     dict(property="C13", name="optimum-on-training-error", rule="R-C13-7", file="src/machine/result.cpp",
          old="const auto value = this->value(trial);", new="const auto value = this->value(trial, split_type::train);"),
     dict(property="C13", name="callback-called-in-tuner", rule="R-C13-1", file="src/tuner/local.cpp",
-         old="    // local search around current optimum iteratively...", new="    if (steps.empty()) { (void)callback(map_to_grid(spaces, igrids_t{min_igrid})); }"),]
+         old="    // local search around current optimum iteratively...", new="    if (steps.empty()) { (void)callback(map_to_grid(spaces, igrids_t{min_igrid})); }"),    # ---- C02
+    dict(property="C02", name="pgm-update-with-old-point", rule="R-C02-1", file="src/solver/universal.cpp",
+         old="""            xk  = xk1;
+            gxk = gxk1;
+            fxk = fxk1;
+            state.update_if_better(xk1, gxk1, fxk1);""", new="""            state.update_if_better(xk, gxk1, fxk1);
+            xk  = xk1;
+            gxk = gxk1;
+            fxk = fxk1;"""),
+    dict(property="C02", name="sgm-step-after-evaluation", rule="R-C02-1", file="src/solver/sgm.cpp",
+         old="""        const auto f = function.vgrad(x, g);
+        state.update_if_better(x, g, f);""", new="""        const auto f = function.vgrad(x, g);
+        x -= 1e-3 * lambda * g;
+        state.update_if_better(x, g, f);"""),
+    dict(property="C02", name="osga-pairs-crossed", rule="R-C02-1", file="src/solver/osga.cpp",
+         old="const auto& fb_hat = (f_prime < fb_prime) ? f_prime : fb_prime;", new="const auto& fb_hat = (f_prime < fb_prime) ? fb_prime : f_prime;"),
+    dict(property="C02", name="fpba-lambda-called-with-bundle-value", rule="R-C02-1", file="src/solver/fpba.cpp",
+         old="            apply_nesterov_sequence(y, gy, fy);\n        }\n        else if (status == csearch_status::null_step)", new="            apply_nesterov_sequence(y, gy, bundle.fx());\n        }\n        else if (status == csearch_status::null_step)"),
+    dict(property="C02", name="update-if-better-drops-fx", rule="R-C02-2", file="src/solver/state.cpp",
+         old="""            m_x  = x;
+            m_fx = fx;
+            m_gx = gx;
+            update_constraints();""", new="""            m_x  = x;
+            m_gx = gx;
+            update_constraints();"""),
+    dict(property="C02", name="update-if-better-accepts-equal", rule="R-C02-2", file="src/solver/state.cpp",
+         old="const auto better = df > 0.0;", new="const auto better = df > -1e-12;"),
+    dict(property="C02", name="update-skips-constraints", rule="R-C02-2", file="src/solver/state.cpp",
+         old="""    update_calls();
+    update_constraints();
+    return valid();""", new="""    update_calls();
+    return valid();"""),
+    dict(property="C02", name="vgrad-resets-counter", rule="R-C02-3", file="src/function.cpp",
+         old="    m_fcalls += 1;", new="    m_fcalls = 1;"),
+    dict(property="C02", name="solver-clears-statistics-midway", rule="R-C02-3", file="src/solver/gd.cpp",
+         old="    auto lsearch = make_lsearch();\n    auto descent = vector_t{function.size()};", new="    auto lsearch = make_lsearch();\n    function.clear_statistics();\n    auto descent = vector_t{function.size()};"),
+    dict(property="C02", name="dgm-inner-loop-unbounded", rule="R-C02-4", file="src/solver/universal.cpp",
+         old="for (int64_t k = 0; k < lsearch_max_iterations && !iter_ok && std::isfinite(fxk1); ++k)\n        {\n            xk1     = gphi - gxk / M;",
+         new="for (int64_t k = 0; !iter_ok && std::isfinite(fxk1); ++k)\n        {\n            xk1     = gphi - gxk / M;"),
+    dict(property="C02", name="sgm-loop-without-budget", rule="R-C02-4", file="src/solver/sgm.cpp",
+         old="    while (function.fcalls() + function.gcalls() < max_evals)\n    {\n        if (g.lpNorm", new="    while (iteration < max_evals * 100)\n    {\n        if (g.lpNorm"),
+    dict(property="C02", name="done-fails-only-on-invalid", rule="R-C01-3", file="src/solver.cpp",
+         old="if (const auto step_ok = iter_ok && state.valid(); converged || !step_ok)", new="if (const auto step_ok = iter_ok || state.valid(); converged || !step_ok)"),
+    dict(property="C02", name="solver-sets-status-itself", rule="R-C01-3", file="src/solver/gd.cpp",
+         old="    return state;\n} // LCOV_EXCL_LINE", new="    state.status(solver_status::converged);\n    return state;\n} // LCOV_EXCL_LINE"),
+    dict(property="C02", name="cgd-returns-fresh-copy", rule="R-C02-5", file="src/solver/cgd.cpp",
+         old="    return cstate.valid() ? cstate : pstate;", new="    return cstate.valid() ? solver_state_t{function, cstate.x()} : pstate;"),
+    dict(property="C02", name="csearch-status-reset-removed", rule="R-C02-6", file="src/solver/csearch.cpp",
+         old="    m_point.m_status = csearch_status::max_iters;\n", new=""),
+    dict(property="C02", name="csearch-skips-evaluation-on-extrapolation", rule="R-C02-6", file="src/solver/csearch.cpp",
+         old="""        y  = bundle.proximal(miu / t);
+        fy = m_function.vgrad(y, gy);""", new="""        y  = bundle.proximal(miu / t);
+        if (!std::isfinite(tR) && t > 8.0)
+        {
+            break;
+        }
+        fy = m_function.vgrad(y, gy);"""),    # ---- C01
+    dict(property="C01", name="lbfgs-flag-on-previous-state", rule="R-C01-1", file="src/solver/lbfgs.cpp",
+         old="        const auto converged = cstate.gradient_test() < epsilon;", new="        const auto converged = pstate.gradient_test() < epsilon;"),
+    dict(property="C01", name="cgd-flag-before-linesearch", rule="R-C01-1", file="src/solver/cgd.cpp",
+         old="""        const auto iter_ok   = lsearch.get(cstate, cdescent, logger);
+        const auto converged = cstate.gradient_test() < epsilon;""", new="""        const auto converged = cstate.gradient_test() < epsilon;
+        const auto iter_ok   = lsearch.get(cstate, cdescent, logger);"""),
+    dict(property="C01", name="quasi-flag-scaled-threshold", rule="R-C01-1", file="src/solver/quasi.cpp",
+         old="        const auto converged = cstate.gradient_test() < epsilon;", new="        const auto converged = cstate.gradient_test() < 10 * epsilon;"),
+    dict(property="C01", name="gd-flag-hard-wired-on-failure", rule="R-C01-1", file="src/solver/gd.cpp",
+         old="        const auto converged = state.gradient_test() < epsilon;", new="        const auto converged = !iter_ok || state.gradient_test() < epsilon;"),
+    dict(property="C01", name="criterion-squared-value", rule="R-C01-2", file="src/solver/state.cpp",
+         old="return gx.lpNorm<Eigen::Infinity>() / std::max(scalar_t(1), std::fabs(m_fx));", new="return gx.lpNorm<Eigen::Infinity>() / std::max(scalar_t(1), m_fx * m_fx);"),
+    dict(property="C01", name="criterion-l2-norm", rule="R-C01-2", file="src/solver/state.cpp",
+         old="return gx.lpNorm<Eigen::Infinity>() / std::max(scalar_t(1), std::fabs(m_fx));", new="return gx.lpNorm<2>() / (1 + gx.size()) / std::max(scalar_t(1), std::fabs(m_fx));"),
+    dict(property="C01", name="lbfgs-drops-forced-descent", rule="R-C01-5", file="src/solver/lbfgs.cpp",
+         old="""        if (!has_descent)
+        {
+            descent = -cstate.gx();
+        }
+""", new=""),
+    dict(property="C01", name="quasi-restart-keeps-direction", rule="R-C01-5", file="src/solver/quasi.cpp",
+         old="""            descent = -cstate.gx();
+            H       = matrix_t::identity(H.rows(), H.cols());""", new="""            H       = matrix_t::identity(H.rows(), H.cols());"""),
+    dict(property="C01", name="lbfgs-second-loop-wrong-slot", rule="R-C01-6", file="src/solver/lbfgs.cpp",
+         old="const scalar_t alpha = alphas[hsize - 1 - j];", new="const scalar_t alpha = alphas[j];"),
+    dict(property="C01", name="lbfgs-history-pop-only-s", rule="R-C01-6", file="src/solver/lbfgs.cpp",
+         old="""                ss.pop_front();
+                ys.pop_front();""", new="""                ss.pop_front();"""),
+    dict(property="C01", name="bfgs-sign-flipped", rule="R-C01-7", file="src/solver/quasi.cpp",
+         old="           dx * dx.transpose() / dx.dot(dg);\n}", new="           -dx * dx.transpose() / dx.dot(dg);\n}"),
+    dict(property="C01", name="dfp-wrong-denominator", rule="R-C01-7", file="src/solver/quasi.cpp",
+         old="return H + (dx * dx.transpose()) / dx.dot(dg) - (H * dg * dg.transpose() * H) / (dg.transpose() * H * dg);",
+         new="return H + (dx * dx.transpose()) / dx.dot(dx) - (H * dg * dg.transpose() * H) / (dg.transpose() * H * dg);"),
+    dict(property="C01", name="status-enum-reordered", rule="R-C01-3", file="include/nano/solver/status.h", tu="src/solver.cpp",
+         old="""    max_iters,  ///< maximum number of iterations reached without convergence (default)
+    converged,  ///< convergence criterion reached""", new="""    converged,  ///< convergence criterion reached
+    max_iters,  ///< maximum number of iterations reached without convergence (default)"""),]
 
 BENIGN = [
     dict(property="C07", name="get-descent-test-inlined", file="src/lsearchk.cpp",
@@ -631,4 +724,16 @@ BENIGN = [
          old="""        const auto value = this->value(trial);
         if (value < best_value)""", new="""        const auto value = this->value(trial);
         if (value <= best_value)"""),
+    dict(property="C02", name="sgm-triple-via-copies", file="src/solver/sgm.cpp",
+         old="""        const auto f = function.vgrad(x, g);
+        state.update_if_better(x, g, f);""", new="""        const auto f = function.vgrad(x, g);
+        const auto fcopy = f;
+        state.update_if_better(x, g, fcopy);"""),
+    dict(property="C02", name="gd-budget-operands-swapped", file="src/solver/gd.cpp",
+         old="    while (function.fcalls() + function.gcalls() < max_evals)", new="    while (function.gcalls() + function.fcalls() < max_evals)"),
+    dict(property="C01", name="lbfgs-flag-inlined", file="src/solver/lbfgs.cpp",
+         old="""        const auto converged = cstate.gradient_test() < epsilon;
+        if (solver_t::done(cstate, iter_ok, converged, logger))""", new="""        if (solver_t::done(cstate, iter_ok, cstate.gradient_test() < epsilon, logger))"""),
+    dict(property="C01", name="criterion-via-maxcoeff", file="src/solver/state.cpp",
+         old="return gx.lpNorm<Eigen::Infinity>() / std::max(scalar_t(1), std::fabs(m_fx));", new="return gx.array().abs().maxCoeff() / std::max(std::fabs(m_fx), scalar_t(1));"),
 ]
